@@ -17,4 +17,4 @@ INIT TInit
 NEXT TNext
 POSTCONDITION Post
 CHECK_DEADLOCK FALSE
-INVARIANTS PickConfPlain
+INVARIANTS PickConfPlain NoZeroChance
